@@ -5,6 +5,7 @@ pub mod c14_15;
 pub mod c05;
 pub mod c10_11;
 pub mod c17_19_20;
+pub mod c18;
 
 use crate::alpha::*;
 use crate::report::*;
@@ -125,6 +126,9 @@ pub fn run(prop: &str, tier: &str) -> i32 {
         "C20" => {
             c17_19_20::run_c20(&mut run);
         }
+        "C18" => {
+            c18::run_c18(&mut run);
+        }
         "C14" => {
             run.rule = format!("{}; x all 2^n masks (n <= 3) x {{without faces, with faces (3D)}}; recording integrals implemented by this downstream crate (monomials of degree <= 2, face triangles)", E1_RULE);
             run_e1(&mut run, &[1, 2, 3], &[false, true], 99, c14_15::eval_c14);
@@ -227,6 +231,25 @@ pub fn replay(path: &str) -> i32 {
             }
         }
         "c05" => c05::eval_c05(&st),
+        "c18" => {
+            // rebuild the extra planes from the alphabet named in the id
+            let parts: Vec<&str> = st.id.split('|').collect();
+            let periodic = parts[0].ends_with('P');
+            let bx = box_by_name(parts[1]);
+            let used: Vec<usize> = parts.get(3).map(|p| p.split(',').filter_map(|x| x.parse().ok()).collect()).unwrap_or_default();
+            let extra: Vec<glam::DVec3> = match (bx, parts.get(2)) {
+                (Some(b), Some(&"L3a")) => {
+                    let pool = lattice_points(L3A, &b, 3, periodic);
+                    (0..pool.len()).filter(|i| !used.contains(i)).map(|i| pool[i]).collect()
+                }
+                (Some(b), Some(&"G")) => {
+                    let pool = generic_points(&b, 3);
+                    (0..pool.len()).filter(|i| !used.contains(i)).map(|i| pool[i]).collect()
+                }
+                _ => vec![],
+            };
+            c18::eval_c18(&(st.clone(), extra))
+        }
         "c17" => c17_19_20::eval_c17(&st),
         "c10-duals" => c10_11::eval_dual_orientation(&st),
         "c14" => c14_15::eval_c14(&st),
